@@ -133,3 +133,20 @@ Qed.
 Theorem sig_only_timed : forall m q d i f, (forall us, m <> MTimeout us) ->
   recv_first_sig m q d i f = recv_first_sig m q d false f.
 Proof. intros [| |us] q d i f H; try reflexivity. exfalso; eapply H; reflexivity. Qed.
+
+(* ---- the in-process transport gives the answers of the OS transport ---- *)
+(* for every mode, queue state and event during a wait - as long as the timeout fits the poll argument (beyond that the OS transport
+   waits without limit, the in-process one for the 24.8+ days asked for) *)
+Theorem transports_agree : forall m q d,
+  (forall us, m = MTimeout us -> poll_arg us <> -1) ->
+  inproc_recv m q d = fst (fst (recv_first m q d false)).
+Proof.
+  intros [| |us] q d H; destruct q; try reflexivity.
+  specialize (H us eq_refl). cbn [inproc_recv recv_first].
+  destruct d as [[]|]; try reflexivity; destruct (poll_arg us =? -1) eqn:E; try reflexivity; apply Z.eqb_eq in E; contradiction.
+Qed.
+
+(* in particular: a timed receive of ANY duration (0 and sub-millisecond ones included) on a drained channel without senders says
+   'disconnected', never 'empty' *)
+Corollary inproc_dead_is_disconnected : forall m d, inproc_recv m QDead d = ODisconnected.
+Proof. intros [] d; reflexivity. Qed.
